@@ -69,9 +69,10 @@ def r_signatures(repo, rep, R='R20.1'):
     rep.floor('Tree factory call sites in readers', n, 12)
 
 
-def eval_unary_labels(repo):
+def eval_unary_labels(repo, per_input=None):
     """labels of ja._unary_rule_symbol reachable for the LHS categories of the shipped unary table; None if the
-    decision structure is not in the recognised form (then every label is assumed reachable)."""
+    decision structure is not in the recognised form (then every label is assumed reachable).  per_input, if given, is
+    filled with {left-hand side: label}."""
     table = df.load_jsonnet(repo, 'depccg/models/unary_rules.ja.jsonnet')['unary_rules']
     mod = repo.module(rg.JA)
     fn = mod.get('_unary_rule_symbol')
@@ -100,6 +101,34 @@ def eval_unary_labels(repo):
                     v = facts_n > 0
                 elif cond[0] == 'call' and cond[1] == N('isinstance') and cond[2][1] == N('TernaryFeature'):
                     v = pairs is not None
+                elif cond[0] == 'cmp' and cond[1] == '==' and cond[2][0] == 'attr' and cond[2][2] in ('kv1', 'kv2', 'kv3') and cond[3][0] == 'tuple' \
+                        and all(x[0] == 'const' for x in cond[3][1]) and pairs is not None:
+                    # one fixed slot of the triple compared with a (key, value) pair
+                    slot = int(cond[2][2][2]) - 1
+                    v = slot < len(pairs) and tuple(pairs[slot]) == tuple(x[1] for x in cond[3][1])
+                if v is None and cond[0] == 'cmp' and cond[1] in ('==', '!='):
+                    # both sides evaluated: constants, fixed slots of the triple, conditional expressions over type tests
+                    class _Unknown(Exception):
+                        pass
+
+                    def val(t):
+                        if t[0] == 'const':
+                            return t[1]
+                        if t[0] == 'tuple':
+                            return tuple(val(x) for x in t[1])
+                        if t[0] == 'attr' and t[2] in ('kv1', 'kv2', 'kv3') and pairs is not None and int(t[2][2]) - 1 < len(pairs):
+                            return tuple(pairs[int(t[2][2]) - 1])
+                        if t == A(N(p), 'nargs'):
+                            return facts_n
+                        if t[0] == 'ifexp':
+                            return val(t[2]) if val(t[1]) else val(t[3])
+                        if t[0] == 'call' and t[1] == N('isinstance') and len(t[2]) == 2 and t[2][1] == N('TernaryFeature'):
+                            return pairs is not None
+                        raise _Unknown()
+                    try:
+                        v = (val(cond[2]) == val(cond[3])) == (cond[1] == '==')
+                    except _Unknown:
+                        v = None
                 if v is None:
                     return None, table
                 if v != pol:
@@ -114,6 +143,8 @@ def eval_unary_labels(repo):
         if hit is None or hit[0] != 'const':
             return None, table
         labels.add(hit[1])
+        if per_input is not None:
+            per_input[lhs] = hit[1]
     return labels, table
 
 
